@@ -444,7 +444,31 @@ def r9_override_inclusion(m):
                        % (p8, n, miss[:4], p3), m.loc(f8))
         else:
             r.instances += 1
-            r.ob(True, "%s (2008) re-implements the match over 2008 list classes (element inclusion is C17.R1)" % n)
+            # (c) both hand the text/reader to the same generic engine: the option flags the 2003 matcher sets must be set identically
+            def engine_calls(f):
+                return [(A.text(c.func), c) for c in A.calls(f.node) if A.text(c.func).endswith("Base.match") and isinstance(c.func, ast.Attribute)]
+            e3, e8 = engine_calls(f3), engine_calls(f8)
+            diffs = []
+            for en, c3 in e3:
+                c8s = [c for (en8, c) in e8 if en8 == en]
+                if not c8s:
+                    continue
+                ek = m.key(en.split(".")[0], UTILS)
+                ef = m.method(ek, "match") if ek else None
+                defaults = {k_: A.text(v_) for k_, v_ in (A.param_defaults(ef.node).items() if ef else ())}
+                kw3 = {k_.arg: A.text(k_.value) for k_ in c3.keywords if k_.arg}
+                for c8 in c8s:
+                    kw8 = {k_.arg: A.text(k_.value) for k_ in c8.keywords if k_.arg}
+                    for k_, v_ in sorted(kw3.items()):
+                        have = kw8.get(k_, defaults.get(k_))
+                        if have != v_:
+                            diffs.append((en, k_, v_, have, c8))
+            r.ob(not diffs, "%s (2008) re-implements the match%s" % (n, " with the same engine options as the 2003 matcher" if e3 and e8 else
+                                                                 " over 2008 list classes (element inclusion is C17.R1)"))
+            for en, k_, v_, have, c8 in diffs:
+                r.fail("%s|engine-option|%s" % (n, k_), "the 2008 %s.match calls %s with %s=%s where the 2003 matcher passes %s=%s: source "
+                       "the 2003 parser accepts through that option (e.g. nested labelled DO loops sharing their terminating statement) "
+                       "is handled differently by the 2008 parser" % (n, en, k_, have, k_, v_), m.loc(f8, c8))
     return r
 
 
@@ -565,6 +589,7 @@ def run(m, tier):
     r12 = guard_rules.optional_keyword_rule(m, "C17.R12")
     r12.title = "a 2003 matcher that skips an optional keyword records it (its 2008 override does, so otherwise the two parsers print different text for the same statement)"
     results.append(r12)
+    results.append(r13_printer_agreement(m))
     expl = ("Decides grammar inclusion at the level at which the 2008 grammar is assembled: every rule and alternative of the linked "
             "2003 registry is still reachable, in the same relative order, in the linked 2008 registry (550 rules); identity tests of "
             "the generic engine also name the 2008 overrides; 2003 code that builds an overridden class by Python name is covered by a "
@@ -573,3 +598,112 @@ def run(m, tier):
             "all their names; the standards share no mutable class-level state (matchers do not write it, class bodies copy a table before extending it) and the factory always relinks. Does NOT decide text "
             "equality of the two parsers' output.")
     return results, expl
+
+
+# ---------------------------------------------------------------------------------------------------------------
+class _Sym:
+    """An opaque child value for interpreting printers: prints as its tag, can be indexed and iterated (two elements)."""
+
+    def __init__(self, tag):
+        self.tag = tag
+
+    def __str__(self):
+        return self.tag
+
+    __repr__ = __str__
+
+    def __getitem__(self, i):
+        if isinstance(i, int) and -2 <= i < 2:
+            return _Sym("%s[%d]" % (self.tag, i % 2))
+        raise IndexError(i)
+
+    def __iter__(self):
+        return iter([_Sym(self.tag + "[0]"), _Sym(self.tag + "[1]")])
+
+    def __len__(self):
+        return 2
+
+
+def _concretise(shape):
+    """all concrete item tuples of a shape (alternatives expanded; nodes/strings/sequences as symbolic values)"""
+    import itertools
+    opts = []
+    for i, e in enumerate(shape):
+        def one(x):
+            if x == "none":
+                return [None]
+            if isinstance(x, tuple) and x and x[0] == "lit":
+                return [x[1]]
+            if isinstance(x, tuple) and x and x[0] == "alt":
+                out = []
+                for y in sorted(x[1], key=repr):
+                    out += one(y)
+                return out
+            return [_Sym("<%d>" % i)]
+        opts.append(one(e))
+    return [tuple(t) for t in itertools.product(*opts)]
+
+
+def r13_printer_agreement(m):
+    """Sibling agreement of printers: where the 2008 class has its own tostr and its matcher returns the 2003 result extended by None
+    elements, printing such a result must give what the 2003 printer gives for the unextended one."""
+    from sa import shapes as SH, pureeval as PE
+    from sa.callgraph import CallGraph
+    r = RuleResult("C17.R13", "a 2008 class with its own printer prints every result the 2003 matcher can return exactly as the 2003 printer "
+                              "does (both printers interpreted on every concrete None/literal pattern of the 2003 result shapes)")
+    r.floor = 4
+    S = SH.Shapes(m, CallGraph(m))
+    s3, s8 = m.snap["std_classes"]["f2003"], m.snap["std_classes"]["f2008"]
+    n_cls = 0
+    for n in sorted(s3):
+        if not (n in s8 and s3[n] != s8[n]) or m.classes[s8[n]]["generated"]:
+            continue
+        if "tostr" not in m.classes[s8[n]]["own"]:
+            continue
+        p3, p8 = m.method(s3[n], "tostr"), m.method(s8[n], "tostr")
+        f3, f8 = m.method(s3[n], "match"), m.method(s8[n], "match")
+        if None in (p3, p8, f3, f8) or p3 is p8:
+            continue
+        sh3, sh8 = S.of_func(f3), S.of_func(f8)
+        if sh3.open or sh8.open or not sh3.shapes:
+            continue
+        pairs = []
+        for a in sorted(sh3.shapes, key=repr):
+            for b in sorted(sh8.shapes, key=repr):
+                if len(b) >= len(a) and b[:len(a)] == a and all(x == "none" for x in b[len(a):]):
+                    pairs.append((a, b))
+        if not pairs:
+            continue          # the 2008 result is not an extension of the 2003 one (e.g. Procedure_Stmt, see C17.R12)
+        n_cls += 1
+        ev = PE.Evaluator({})
+        g = ev.g
+        # names under which the 2008 module knows the 2003 class
+        parent = PE.Obj({"tostr": lambda self_: ev.run_function(p3.node, [self_])})
+        for nm in ("%s_2003" % n, n + "2003", "F2003_%s" % n):
+            g[nm] = parent
+        for node in ast.walk(p8.node):
+            if isinstance(node, ast.Call) and isinstance(node.func, ast.Attribute) and node.func.attr == "tostr" and isinstance(node.func.value, ast.Name):
+                k_ = m.class_of_name(p8, node.func.value.id)
+                if k_ == s3[n]:
+                    g[node.func.value.id] = parent
+        g.update({"str": str, "map": lambda fn_, xs: [fn_(x) for x in xs]})
+        for a, b in pairs:
+            for items8 in _concretise(b):
+                items3 = items8[:len(a)]
+                r.instances += 1
+                try:
+                    t3 = ev.run_function(p3.node, [PE.Obj({"items": items3})])
+                    t8 = ev.run_function(p8.node, [PE.Obj({"items": items8})])
+                except PE.Unsupported as err:
+                    r.undet("%s: printers cannot be interpreted (%s)" % (n, err))
+                    continue
+                except PE.PyRaise as err:
+                    t3, t8 = "-", "raises %s" % err.exc_type
+                ok = t3 == t8
+                r.ob(ok, "%s%r: both print %r" % (n, items3, t3) if r.obligations % 3 == 0 else None)
+                if not ok:
+                    r.fail("%s|printer-disagrees|%s" % (n, "/".join("-" if x is None else str(x) for x in items3)),
+                           "%s: for the 2003 result %r the 2003 printer gives %r but the 2008 printer gives %r: the same source regenerates "
+                           "to different text under the two standards" % (n, items3, t3, t8), m.loc(p8))
+    r.ob(n_cls > 0, "%d classes compared" % n_cls)
+    return r
